@@ -302,7 +302,8 @@ fn cmd_check(args: &[String]) -> i32 {
                 let spec = file["spec"].clone();
                 let class = file["class"].as_str().unwrap_or("").to_string();
                 let rr = run_requests(vec![json!({"check": id, "spec": spec, "idx": 0})], 1, timeout * 2).remove(0);
-                let hung = class == "did-not-terminate" && (rr.outcome == "timeout" || rr.outcome.starts_with("abort"));
+                // a hang shows either as the wall-clock guard or as the step budget, whichever is hit first on this machine
+                let hung = (class == "did-not-terminate" || class == "step-budget-exhausted") && (rr.outcome == "timeout" || rr.outcome.starts_with("abort"));
                 if !hung && !rr.violations.iter().any(|v| v.class == class) {
                     println!("STALE-FINDING: property={} {} no longer reproduces from {} (the entry can be retired)", id, f.id, f.replay);
                 }
@@ -448,9 +449,17 @@ fn cmd_replay(id: &str, path: &str, timeout: Duration) -> i32 {
             None => println!("  signature={} (no recorded finding)", v.sig.clone().unwrap_or_default()),
         }
         1
-    } else if timed_out && class == "did-not-terminate" {
+    } else if timed_out && (class == "did-not-terminate" || class == "step-budget-exhausted") {
+        // a hang shows either as the wall-clock guard or as the step budget, whichever is hit first on this machine
         println!("VIOLATION property={} replay={}", id, path);
         println!("  class=did-not-terminate :: {}", r.outcome);
+        {
+            let sig = checks::timeout_sig(id, &file["spec"]);
+            match load_findings().open_match(id, &sig) {
+                Some(f) => println!("  signature={} (matches recorded finding {})", sig.clone().unwrap_or_default(), f.id),
+                None => println!("  signature={} (no recorded finding)", sig.clone().unwrap_or_default()),
+            }
+        }
         1
     } else {
         println!("not reproduced: no violation of class `{}` (violations seen: {:?})", class, r.violations.iter().map(|v| &v.class).collect::<Vec<_>>());
